@@ -71,7 +71,7 @@ impl Property for C19Prop {
             engine,
             kind,
             capacity: usize::MAX,
-            world: WorldParams { max_authors: 3, max_logs_per_author: 2, max_ops_per_log: if engine == Engine::Des { 10 } else { 6 }, prune_num: 1, body_kinds: 4 },
+            world: WorldParams { max_authors: 3, max_logs_per_author: 2, max_ops_per_log: if engine == Engine::Des { 10 } else { 6 }, prune_num: 1, body_kinds: 4, min_ops_per_log: 0 },
             interference: false,
             dedup_capacity: *ctx::pick("dedup.capacity", &[1024usize, 1024, 64, 8]),
             partial_scope: ctx::chance("partial_scope", 1, 3),
